@@ -273,6 +273,9 @@ func c02Check(c c02Cfg, evs []c02Ev, ds []c02Del) (kind, what string) {
 					found := false
 					for mi, m := range mine {
 						if m.WID == wid {
+							if m.WS != f.WS || m.WE != f.WE {
+								return "late-update-bounds", fmt.Sprintf("late event %d (ts %d) into fired window %s [%d,%d): the re-delivery reports window_start/window_end [%d,%d)", e.ID, e.TS, wid, f.WS, f.WE, m.WS, m.WE)
+							}
 							if !intsEq(m.IDs, want) {
 								return "late-update-contents", fmt.Sprintf("late event %d (ts %d) into fired window %s: re-delivery holds %v, previous contents plus the event are %v", e.ID, e.TS, wid, m.IDs, want)
 							}
